@@ -83,7 +83,13 @@ def gen_V(rnd, T, depth, B0, share):
         if share is not None and rnd.random() < 0.3:
             node["share"] = share + "V"
         return node
-    form = rnd.choice(["V+V", "V-V", "S*V", "V*S", "V/S", "V**n", "n*V", "V*n", "V+V"])
+    form = rnd.choice(["V+V", "V-V", "S*V", "V*S", "V/S", "V**n", "n*V", "V*n", "V+V", "(V**n)**m"])
+    if form == "(V**n)**m":
+        # a power of an even power: the inner value is >= 0 whatever the sign of V, so the fractional
+        # outer exponent is legal - and (V**n)**m is not V**(n*m) where V < 0
+        n, m = rnd.choice([(2, 0.5), (2, 1.5), (4, 0.25), (2, 2)])
+        inner = {"op": "**", "l": gen_V(rnd, T, depth - 2, B0, share), "r": {"leaf": "num", "v": n, "int": True}}
+        return {"op": "**", "l": inner, "r": {"leaf": "num", "v": m, "int": False}}
     if form in ("V+V", "V-V"):
         return {"op": form[1], "l": gen_V(rnd, T, depth - 1, B0, share), "r": gen_V(rnd, T, depth - 1, B0, share)}
     if form == "S*V":
